@@ -35,7 +35,7 @@ from typing import Callable, Dict, FrozenSet, List, Optional, Set, Tuple
 
 from ..cfg import cfg_of
 from ..model import UNKNOWN, AnchorError, Func, Project, UnknownIdiom, func_owner_class, short
-from .common import strip_await, walk_self
+from .common import ancestors, enclosing_map, strip_await, walk_self
 
 WS = 'falcon.asgi.ws.WebSocket'
 WS_STATE_ENUM = 'falcon.asgi.ws._WebSocketState'
@@ -328,6 +328,10 @@ class WSModel:
             if expr.id in func.params():
                 return env.get(expr.id)
             defs = local_defs(func, expr.id)
+            if len(defs) > 1 and all(isinstance(d, ast.Dict) for d in defs):
+                # one literal per branch: the same event type in all of them
+                ts = {self.event_type(func, d, env) for d in defs}
+                return ts.pop() if len(ts) == 1 else None
             if len(defs) != 1 or defs[0] is None:
                 return None
             expr = defs[0]
@@ -425,6 +429,25 @@ class WSModel:
                 seen.add(id(n.ast))
                 out.append(n.ast)
         return out
+
+    def _reraised_classes(self, func: Func, stmt) -> List[str]:
+        """classes a bare ``raise`` can re-raise: those of the innermost enclosing ``except`` clause when it names project/builtin
+        classes narrower than Exception; otherwise '<re-raise>' (whatever was caught)"""
+        parent = enclosing_map(func.node)
+        for a in ancestors(stmt, parent):
+            if isinstance(a, (ast.FunctionDef, ast.AsyncFunctionDef, ast.Lambda)):
+                break
+            if isinstance(a, ast.ExceptHandler):
+                if a.type is None:
+                    break
+                qs = []
+                for t in (a.type.elts if isinstance(a.type, ast.Tuple) else [a.type]):
+                    q = self.p.resolve_expr(func.module, t, func)
+                    if q is None or not (q in self.p.classes or q.startswith('builtins.')) or q in ('builtins.Exception', 'builtins.BaseException'):
+                        return ['<re-raise>']
+                    qs.append(q)
+                return sorted(set(qs))
+        return ['<re-raise>']
 
     def _writes_state(self, node_ast) -> List[ast.AST]:
         return [x for x in walk_self(node_ast) if isinstance(x, ast.Attribute) and x.attr == self.state_attr
@@ -526,7 +549,7 @@ class WSModel:
                         q = '?' + short(n.ast.exc, 60)
                     qs = [q]
                 else:
-                    qs = ['<re-raise>']
+                    qs = self._reraised_classes(func, n.ast)
                 for q in qs:
                     res.raises.add((q, cell, func.qual, nid))
             atom = None
